@@ -229,12 +229,57 @@ package slice
 // spans of lhs and rhs at those offsets, an Emit covers equal elements, no edit is empty, and the offsets after the last
 // edit are the lengths of the inputs. Index safety of the two scan loops and of the run extension follows from the
 // witnesses being strictly ascending (the k-th remaining witness is at least k positions ahead), not from optimality.
+//@ byref seq
+//@ ghost field seq.gj int
+//@
 //@ func LCSFunc
 //@   role eq eqv
 //@   ghostret wa imap[int], wb imap[int]
-//@   ensures [assumed] common: forall k int :: {result[k]} 0 <= k && k < len(result) ==> 0 <= wa[k] && wa[k] < len(as) && 0 <= wb[k] && wb[k] < len(bs) && eqv(eq, as[wa[k]], result[k]) && eqv(eq, bs[wb[k]], result[k])
-//@   ensures [assumed] ascending: forall a int, b int :: {wa[a], wa[b]} {wb[a], wb[b]} 0 <= a && a <= b && b < len(result) ==> wa[b] - wa[a] >= b - a && wb[b] - wb[a] >= b - a
-//@   ensures [assumed] inputs: unchanged(elems(as)) && unchanged(elems(bs)) && (len(result) > 0 ==> fresh(result))
+//@   ensures [C11,C12,C13] common: forall k int :: {result[k]} 0 <= k && k < len(result) ==> 0 <= wa[k] && wa[k] < len(as) && 0 <= wb[k] && wb[k] < len(bs) && eqv(eq, as[wa[k]], result[k]) && eqv(eq, bs[wb[k]], result[k])
+//@   ensures [C11,C12,C13] ascending: forall a int, b int :: {wa[a], wa[b]} {wb[a], wb[b]} 0 <= a && a <= b && b < len(result) ==> wa[b] - wa[a] >= b - a && wb[b] - wb[a] >= b - a
+//@   ensures [C11,C12,C13] inputs: unchanged(elems(as)) && unchanged(elems(bs)) && (len(result) > 0 ==> fresh(result))
+//@   ghostret nodes set[ref], u imap[int], v imap[int]
+//@   at after "var zero seq": ghost nodes = setadd(emptyset(nodes), zero)
+//@   at after "c[i] = &seq{i - 1, p[i-1].n + 1, p[i-1]}": ghost c[i].gj = j - 1
+//@   at after "c[i] = &seq{i - 1, p[i-1].n + 1, p[i-1]}": ghost nodes = setadd(nodes, c[i])
+//@   loop 1: invariant [C12] mem: old_arrays_unchanged(p)
+//@   loop 1: invariant [C12] rows: len(p) == len(as) + 1 && len(c) == len(as) + 1 && fresh(p) && fresh(c) && p.base != c.base && zero.n == 0 && zero in nodes
+//@   loop 1: invariant [C12] filled: forall k int :: {p[k]} {c[k]} 0 <= k && k < it1 ==> p[k] == zero && c[k] == zero
+//@   loop 1: invariant [C12] nodes: forall s *seq :: {s in nodes} s in nodes ==> s == zero
+//@   loop 2: invariant [C12] mem: old_arrays_unchanged(p)
+//@   loop 2: invariant [C12] rows: 1 <= j && j <= len(bs) + 1 && len(p) == len(as) + 1 && len(c) == len(as) + 1 && fresh(p) && fresh(c) && p.base != c.base && zero in nodes && p[0] == zero && c[0] == zero && len(as) >= 1
+//@   loop 2: invariant [C12] nodes: (forall s *seq :: {s in nodes} s in nodes ==> nodeBase(s, zero, as, bs, eq)) && (forall s *seq :: {s.prev} nodeLink(s, nodes))
+//@   loop 2: invariant [C12] prow: forall k int :: {p[k]} 0 <= k && k <= len(as) ==> p[k] in nodes
+//@   loop 2: invariant [C12] crow: forall k int :: {c[k]} 0 <= k && k <= len(as) ==> c[k] in nodes && (c[k].n > 0 ==> c[k].i < k && c[k].gj < j - 1)
+//@   loop 2: invariant [C12] inputs: unchanged(elems(old(as))) && unchanged(elems(old(bs)))
+//@   at loop 3 head: ghost p0 = snap(p)
+//@   at loop 3 head: ghost c0 = snap(c)
+//@   at loop 3 head: ghost i0 = i
+//@   at loop 3 end: assert [C12] forall k int :: {p[k]} 0 <= k && k <= len(as) ==> p[k] == p0[p.off + k]
+//@   at loop 3 end: assert [C12] forall k int :: {c[k]} 0 <= k && k <= len(as) && k != i0 ==> c[k] == c0[c.off + k]
+//@   loop 3: invariant [C12] mem: old_arrays_unchanged(p)
+//@   loop 3: invariant [C12] rows: 1 <= i && i <= len(as) + 1 && 1 <= j && j <= len(bs) && len(p) == len(as) + 1 && len(c) == len(as) + 1 && fresh(p) && fresh(c) && p.base != c.base && zero in nodes && p[0] == zero && c[0] == zero && len(as) >= 1
+//@   loop 3: invariant [C12] nodes: (forall s *seq :: {s in nodes} s in nodes ==> nodeBase(s, zero, as, bs, eq)) && (forall s *seq :: {s.prev} nodeLink(s, nodes))
+//@   loop 3: invariant [C12] prow: forall k int :: {p[k]} 0 <= k && k <= len(as) ==> p[k] in nodes && (p[k].n > 0 ==> p[k].i < k && p[k].gj < j - 1)
+//@   loop 3: invariant [C12] crow: forall k int :: {c[k]} 0 <= k && k <= len(as) ==> c[k] in nodes && (k < i && c[k].n > 0 ==> c[k].i < k && c[k].gj < j)
+//@   loop 3: invariant [C12] inputs: unchanged(elems(old(as))) && unchanged(elems(old(bs)))
+//@
+//@   at entry: ghost sw = len(bs) < len(as)
+//@   at after "out := make(Slice, 0, c[len(as)].n)": ghost N = c[len(as)].n
+//@   at after "out = append(out, as[p.i])": ghost u[len(out) - 1] = p.i
+//@   at after "out = append(out, as[p.i])": ghost v[len(out) - 1] = p.gj
+//@   loop 4: invariant [C12] mem: old_arrays_unchanged(c)
+//@   loop 4: invariant [C12] walk: p != nil && p in nodes && len(out) + p.n == N && N >= 0 && fresh(out) && old_arrays_unchanged(out) && unchanged(elems(old(as))) && unchanged(elems(old(bs)))
+//@   loop 4: invariant [C12] nodes: (forall s *seq :: {s in nodes} s in nodes ==> nodeBase(s, zero, as, bs, eq)) && (forall s *seq :: {s.prev} nodeLink(s, nodes))
+//@   loop 4: invariant [C12] elems: forall t int :: {out[t]} 0 <= t && t < len(out) ==> 0 <= u[t] && u[t] < len(as) && 0 <= v[t] && v[t] < len(bs) && out[t] == as[u[t]] && eqv(eq, as[u[t]], bs[v[t]])
+//@   loop 4: invariant [C12] desc: forall a int, b int :: {u[a], u[b]} {v[a], v[b]} 0 <= a && a <= b && b < len(out) ==> u[a] - u[b] >= b - a && v[a] - v[b] >= b - a
+//@   loop 4: invariant [C12] link: len(out) > 0 && p.n > 0 ==> p.i < u[len(out) - 1] && p.gj < v[len(out) - 1]
+//@   at before "slices.Reverse(out)": ghost wa = lambda k int :: ite(sw, v[N - 1 - k], u[N - 1 - k])
+//@   at before "slices.Reverse(out)": ghost wb = lambda k int :: ite(sw, u[N - 1 - k], v[N - 1 - k])
+//@
+//@ pred nodeBase(s *seq, zero *seq, as Slice, bs Slice, eq func(T, T) bool) := s != nil && allocated(s) && s.n >= 0 && (s.n == 0 <==> s == zero)
+//@+     && (s.n > 0 ==> 0 <= s.i && s.i < len(as) && 0 <= s.gj && s.gj < len(bs) && eqv(eq, as[s.i], bs[s.gj]))
+//@ pred nodeLink(s *seq, nodes set[ref]) := s in nodes && s.n > 0 ==> s.prev != nil && s.prev in nodes && s.prev.n == s.n - 1 && (s.prev.n > 0 ==> s.prev.i < s.i && s.prev.gj < s.gj)
 //@
 //@ spec span(x Slice, s Slice, a int, b int) bool := x.base == s.base && x.off == s.off + a && len(x) == b - a && cap(x) == cap(s) - a
 //@ spec isOp(op EditOp) bool := op == OpDrop || op == OpEmit || op == OpCopy || op == OpReplace
@@ -305,3 +350,11 @@ package slice
 //@   ensures [C11,C13] inputs: unchanged(elems(lhs)) && unchanged(elems(rhs))
 //@   at exit: ghost lp = editScriptFunc_lp
 //@   at exit: ghost rp = editScriptFunc_rp
+//@
+//@ func LCS
+//@   ghostret wa imap[int], wb imap[int]
+//@   ensures [C12] common: forall k int :: {result[k]} 0 <= k && k < len(result) ==> 0 <= wa[k] && wa[k] < len(as) && 0 <= wb[k] && wb[k] < len(bs) && eqv(equal, as[wa[k]], result[k]) && eqv(equal, bs[wb[k]], result[k])
+//@   ensures [C12] ascending: forall a int, b int :: {wa[a], wa[b]} {wb[a], wb[b]} 0 <= a && a <= b && b < len(result) ==> wa[b] - wa[a] >= b - a && wb[b] - wb[a] >= b - a
+//@   ensures [C12] inputs: unchanged(elems(as)) && unchanged(elems(bs))
+//@   at exit: ghost wa = LCSFunc_wa
+//@   at exit: ghost wb = LCSFunc_wb
